@@ -344,6 +344,39 @@ pub fn make_tx(
     tx
 }
 
+/// NFT creation: [Bound(creator, 1), Normal(recipient, deposit), Bound(uuid of the consumed output, 0), change]
+pub fn make_nft_tx(signer: &Key, input: &SlipRef, recipient: &SaitoPublicKey, deposit: u64, change: u64, ts: u64, data: &[u8]) -> Transaction {
+    let mut tx = Transaction::default();
+    tx.transaction_type = TransactionType::Bound;
+    tx.timestamp = ts;
+    tx.data = data.to_vec();
+    let inp = input.to_slip();
+    let uuid = Wallet::create_nft_uuid(&inp, "simnft");
+    tx.add_from_slip(inp);
+    let mut s1 = Slip::default();
+    s1.public_key = signer.pk;
+    s1.amount = 1;
+    s1.slip_type = SlipType::Bound;
+    tx.add_to_slip(s1);
+    let mut s2 = Slip::default();
+    s2.public_key = *recipient;
+    s2.amount = deposit;
+    tx.add_to_slip(s2);
+    let mut s3 = Slip::default();
+    s3.public_key = uuid;
+    s3.amount = 0;
+    s3.slip_type = SlipType::Bound;
+    tx.add_to_slip(s3);
+    if change > 0 {
+        let mut s4 = Slip::default();
+        s4.public_key = signer.pk;
+        s4.amount = change;
+        tx.add_to_slip(s4);
+    }
+    tx.sign(&signer.sk);
+    tx
+}
+
 pub fn mine_gt(target: SaitoHash, difficulty: u64, miner: &Key, salt: u64) -> GoldenTicket {
     let mut ctr = 0u64;
     loop {
@@ -641,6 +674,69 @@ impl World {
         Ok(self.register(b, true, note))
     }
 
+    /// child of `parent` that is invalid only because one of its transactions spends an output
+    /// that is not spendable on that branch: "double-spend" = an output already spent by an
+    /// ancestor block, "phantom-input" = an output that never existed (amount altered).
+    /// None when the branch offers no such output.
+    pub fn child_with_unspendable_input(&mut self, parent: usize, rng: &mut Rng, kind: &str, gt: bool, dt: u64) -> Result<Option<usize>, String> {
+        let ledger = self.ledger_at(parent);
+        let prec = self.recs[parent].clone();
+        let ts = prec.ts + dt;
+        let bad_input: Option<SlipRef> = match kind {
+            "double-spend" => {
+                let mut spent: Vec<SlipRef> = vec![];
+                for i in self.path_to(parent) {
+                    for t in &self.recs[i].txs {
+                        if t.ttype == TransactionType::Normal {
+                            for s in &t.inputs {
+                                if s.amount > 0 && s.stype == SlipType::Normal && !ledger.utxo.contains_key(&s.key()) {
+                                    spent.push(s.clone());
+                                }
+                            }
+                        }
+                    }
+                }
+                if spent.is_empty() {
+                    None
+                } else {
+                    Some(spent[rng.usize_below(spent.len())].clone())
+                }
+            }
+            _ => {
+                let mut live: Vec<SlipRef> = ledger.utxo.values().filter(|s| s.stype == SlipType::Normal && s.amount > 10).cloned().collect();
+                live.sort_by_key(|s| s.key());
+                if live.is_empty() {
+                    None
+                } else {
+                    let mut s = live[rng.usize_below(live.len())].clone();
+                    s.amount += 1;
+                    Some(s)
+                }
+            }
+        };
+        let bad_input = match bad_input {
+            Some(s) => s,
+            None => return Ok(None),
+        };
+        let owner = match self.keys.iter().find(|k| k.pk == bad_input.pk).cloned() {
+            Some(k) => k,
+            None => return Ok(None),
+        };
+        let tag = self.next_ts_tag();
+        let bad_tx = make_tx(&owner, &[bad_input.clone()], &[(owner.pk, bad_input.amount)], ts + tag, &tag.to_le_bytes());
+        let mut txs = vec![bad_tx];
+        let n_users = self.params.n_users;
+        let user = 1 + rng.usize_below(n_users);
+        if let Some((tx, inp)) = self.payment(&ledger, user, 1 + rng.usize_below(n_users), rng.usize_below(64), 0, ts) {
+            if inp.key() != bad_input.key() {
+                txs.push(tx);
+            }
+        }
+        let spec = BlockSpec { parent: prec.hash, ts, txs, gt, creator: 0 };
+        let b = build_block(&self.builder, &self.keys, spec)?;
+        Ok(Some(self.register(b, false, &format!("invalid:{}", kind))))
+    }
+
     pub fn block(&self, idx: usize) -> Block {
         let mut b = Block::deserialize_from_net(&self.recs[idx].bytes).expect("own block decodes");
         b.generate().expect("own block generates");
@@ -664,6 +760,9 @@ pub const BLOCK_INVALIDITY_KINDS: &[&str] = &[
     "fee-tx",
     "avg-fee",
 ];
+
+/// invalid only through a transaction whose input is not spendable (World::child_with_unspendable_input)
+pub const TX_INVALIDITY_KINDS: &[&str] = &["double-spend", "phantom-input"];
 
 /// returns None when the edit does not apply to this block (e.g. no fee transaction)
 pub fn tamper_block(b: &Block, kind: &str, creator: &Key) -> Option<Block> {
